@@ -842,6 +842,10 @@ func (c10) Exec(c string) (string, []Fail) {
 				}
 			}
 
+			sigc := sigx // AllMatches / BestMatch re-align on the linear sequence: hits in the circular extension are a class of their own
+			if circ {
+				sigc += ".circular"
+			}
 			switch f[0] {
 			case "find":
 				if long {
@@ -889,11 +893,11 @@ func (c10) Exec(c string) (string, []Fail) {
 				plain := c10PlainIupac(pat) && !rc
 				for _, h := range r {
 					if h[0] < 0 || h[0] > h[1] || h[1] > len(data) {
-						fail("all.span"+sigx, "span [%d,%d) is not inside the sequence of length %d", h[0], h[1], len(data))
+						fail("all.span"+sigc, "span [%d,%d) is not inside the sequence of length %d", h[0], h[1], len(data))
 						continue
 					}
 					if h[2] > e {
-						fail("all.budget"+sigx, "reported %d errors with budget %d", h[2], e)
+						fail("all.budget"+sigc, "reported %d errors with budget %d", h[2], e)
 					}
 					if sane && len(toks) == m && !circ {
 						var d int
@@ -908,7 +912,7 @@ func (c10) Exec(c string) (string, []Fail) {
 							}
 						} else {
 							if h[1]-h[0] != m {
-								fail("all.span"+sigx, "span [%d,%d) has not the pattern length", h[0], h[1])
+								fail("all.span"+sigc, "span [%d,%d) has not the pattern length", h[0], h[1])
 								continue
 							}
 							d = c10Hamming(toks, low[h[0]:h[1]])
@@ -918,7 +922,7 @@ func (c10) Exec(c string) (string, []Fail) {
 							if strings.ContainsAny(strings.ToUpper(pat), "V") {
 								vs = ".v"
 							}
-							fail("all.errcount"+vs+sigx, "span [%d,%d) = %q reported with %d errors, distance to %q is %d", h[0], h[1], low[h[0]:h[1]], h[2], pat, d)
+							fail("all.errcount"+vs+sigc, "span [%d,%d) = %q reported with %d errors, distance to %q is %d", h[0], h[1], low[h[0]:h[1]], h[2], pat, d)
 						}
 					}
 				}
@@ -931,7 +935,7 @@ func (c10) Exec(c string) (string, []Fail) {
 						}
 					}
 					if exists != (len(r) > 0) {
-						fail("all.iff"+sigx, "a substring within %d edits exists: %v; AllMatches reports %s", e, exists, c10Hits(r))
+						fail("all.iff"+sigc, "a substring within %d edits exists: %v; AllMatches reports %s", e, exists, c10Hits(r))
 					}
 				}
 				if long {
@@ -942,7 +946,7 @@ func (c10) Exec(c string) (string, []Fail) {
 				st, en, nerr, matched := p.BestMatch(fresh, begin, length)
 				if matched {
 					if st < 0 || st > en || en > n {
-						fail("best.span"+sigx, "span [%d,%d) is not inside the sequence of length %d", st, en, n)
+						fail("best.span"+sigc, "span [%d,%d) is not inside the sequence of length %d", st, en, n)
 					} else if sane && len(toks) == m && c10PlainIupac(pat) && !rc && !circ {
 						d := c10Edit(m, func(j int, c byte) bool { return c10TokMatch(toks[j], c) }, low[st:en])
 						if d != nerr {
@@ -955,7 +959,7 @@ func (c10) Exec(c string) (string, []Fail) {
 							}
 						}
 						if d != nerr {
-							fail("best.errcount"+sigx, "span [%d,%d) = %q reported with %d errors, distance to %q is %d", st, en, low[st:en], nerr, pat, d)
+							fail("best.errcount"+sigc, "span [%d,%d) = %q reported with %d errors, distance to %q is %d", st, en, low[st:en], nerr, pat, d)
 						}
 					}
 				}
